@@ -102,3 +102,14 @@ package curves
 //@   ensures[C06.pid]     err == nil && !isnan(lastPidOut) ==> value == int(util.clamp01(lastPidOut) * 255.0)
 //@   ensures[C06.current] err == nil ==> c.Value == value
 //@   modifies c.Value, c.pidLoop.integral, c.pidLoop.error, c.pidLoop.lastTime, lastValue, lastPidOut, procWorld, started, lastReadFailed
+
+// ---- trivial getters (generated by `govc gengetters`, verified like every other contract) ------------------
+//@ func (*FunctionSpeedCurve).GetId
+//@   ensures result == c.Config.ID
+//@   modifies nothing
+//@ func (*LinearSpeedCurve).GetId
+//@   ensures result == c.Config.ID
+//@   modifies nothing
+//@ func (*PidSpeedCurve).GetId
+//@   ensures result == c.Config.ID
+//@   modifies nothing
